@@ -479,6 +479,11 @@ func (w *World) buildPkg(p *Pkg) error {
 		for _, v := range results {
 			fc.RNames = append(fc.RNames, v.Name)
 		}
+		if lit != nil {
+			// closures: the enclosing function's variables are visible in requires/ensures as well
+			// (they are not call arguments: PNames/RNames above stay as they are)
+			params = append(append([]localVar{}, params...), locals...)
+		}
 		for _, c := range fc.Requires {
 			emit(c, params)
 		}
